@@ -125,7 +125,7 @@ func VerifC02JsonTxBytes() {
 		s[0], s[31], s[63] = verifU8("sig"), verifU8("sig"), verifU8("sig")
 		w.sigs = append(w.sigs, s)
 	}
-	nkeys := 2 + verifChoice("keys", 2)
+	nkeys := 2 + verifChoice("keys", verifParam("keyModes", 2))
 	w.header = [3]byte{byte(nsig), 0, 1}
 	for i := 0; i < nkeys; i++ {
 		w.keys = append(w.keys, verifC02SymKey("key", byte(0x10*i)))
